@@ -322,8 +322,53 @@ func drawValidFile(d gen.D, corpus []gen.CorpusFile) []byte {
 	}
 }
 
+// longChains: 65535, 65536 and 70000 small valid files in one stream (a year
+// of a device's daily files concatenated): one File per input, each carrying
+// its own number.
+func longChains(rec *hx.Recorder) {
+	for _, nfiles := range []int{65535, 65536, 70000} {
+		var chain []byte
+		for i := 0; i < nfiles; i++ {
+			st := &fitmodel.Stream{HeaderSize: 12, Proto: 0x20, Recs: []fitmodel.Rec{
+				{IsDef: true, Global: 0, Fields: []fitmodel.FieldDef{{Num: 0, Size: 1, Base: 0}, {Num: 3, Size: 4, Base: 0x8C}}},
+				{Raw: []byte{4, byte(i), byte(i >> 8), byte(i >> 16), 0}},
+			}}
+			chain = append(chain, st.Bytes()...)
+		}
+		var fs []*fit.File
+		var err error
+		p := oracle.Catch(func() { fs, err = fit.DecodeChained(bytes.NewReader(chain)) })
+		rec.Eval("long-chain", 1)
+		rec.NonTrivialEnum(1)
+		c := chainCase{Corrupt: -1, Sentinel: 0}
+		msg := ""
+		switch {
+		case p != nil:
+			msg = fmt.Sprintf("DecodeChained panicked on a chain of %d valid files: %v", nfiles, p)
+		case err != nil || len(fs) != nfiles:
+			msg = fmt.Sprintf("DecodeChained on a chain of %d valid files returned %d files and err=%v", nfiles, len(fs), err)
+		default:
+			for i, f := range fs {
+				if f.FileId.SerialNumber != uint32(i) {
+					msg = fmt.Sprintf("chain of %d valid files: File %d carries serial number %d", nfiles, i, f.FileId.SerialNumber)
+					break
+				}
+			}
+		}
+		if msg != "" {
+			rec.Fail("long-chain", "", msg, c)
+			break
+		}
+	}
+}
+
 func TestC10(t *testing.T) {
 	hx.Main(t, "C10", func(rec *hx.Recorder) {
+		if rp, ok := hx.LoadReplay(); ok && rp.Sub == "long-chain" {
+			rec.Eval("replay", 1)
+			longChains(rec)
+			return
+		}
 		if rp, ok := hx.LoadReplay(); ok {
 			var c chainCase
 			json.Unmarshal(rp.Case, &c)
@@ -423,6 +468,10 @@ func TestC10(t *testing.T) {
 			}
 			rec.Eval("file-types", nt)
 			rec.NonTrivialEnum(nt)
+
+			if os.Getenv("VERIF_VARIANT") == "" {
+				longChains(rec)
+			}
 
 		}
 
